@@ -9,10 +9,13 @@ package main
 // for the goroutines to settle and prints the vector of stored heads and the up/partition state.
 //
 //	net <maxwait-ms> <quiet-ms>
-//	ops:  init <n> <thr> <scheme> <k> <bolt|mem>
+//	ops:  init <n> <thr> <scheme> <k> <bolt|mem> [idx=i0,i1,…] [spare=m]
+//	                                the n members get the listed share indices (gaps allowed; default 0..n-1); m more
+//	                                nodes exist (keys, addresses, stores) but run nothing until a reshare makes them join
 //	      step [e=h0,h1,…]          advance every clock by one CatchupPeriod (e= expected heads: only a wait hint)
 //	      stop <i> | restart <i> [e=…] | part <g0> … <g(n-1)> | link <i> <j> <ok|cut|slow>
 //	      dump                      per node: stored rounds, gap-freeness, validity, digest of every signature
+//	      reshare / announce / failput / inject / plog: see netreshare.go (C03, C05, C07)
 //	result line of every op but dump:  r=<round> h=<heads> up=<0/1…> g=<groups> lk=<non-ok links> ms=<wall> to=<0|1>
 
 import (
@@ -37,6 +40,7 @@ import (
 	"google.golang.org/protobuf/proto"
 
 	"github.com/drand/drand/v2/common"
+	dchain "github.com/drand/drand/v2/common/chain"
 	"github.com/drand/drand/v2/common/key"
 	"github.com/drand/drand/v2/common/log"
 	"github.com/drand/drand/v2/crypto"
@@ -46,8 +50,6 @@ import (
 	"github.com/drand/drand/v2/internal/chain/memdb"
 	"github.com/drand/drand/v2/internal/net"
 	pb "github.com/drand/drand/v2/protobuf/drand"
-	"github.com/drand/kyber/share"
-	"github.com/drand/kyber/share/dkg"
 	"github.com/drand/kyber/util/random"
 )
 
@@ -71,6 +73,10 @@ type simNode struct {
 	up      bool
 	head    uint64 // last head read (kept while the node is down)
 	started int    // number of handlers created for this node
+	pair    *key.Pair
+	cfg     int        // epoch of the group / share a new Handler of this node is built with (-1: none yet)
+	fs      *failStore // error-injecting wrapper around the base store of the running handler
+	joinTr  bool       // joiner started with Handler.Transition instead of Catchup
 }
 
 type simStream struct {
@@ -83,8 +89,9 @@ type netSim struct {
 	n, thr   int
 	k        int
 	sch      *crypto.Scheme
-	group    *key.Group
-	shares   []*key.Share
+	group    *key.Group // the first group (its public key and chain info are the chain's for ever)
+	epochs   []*simEpoch
+	plog     []*plogEntry
 	nodes    []*simNode
 	byAddr   map[string]int
 	period   time.Duration
@@ -149,6 +156,7 @@ func (c *memClient) deliver(ctx context.Context, to int, in *pb.PartialBeaconPac
 	defer atomic.AddInt64(&c.sim.inflight, -1)
 	defer atomic.AddInt64(&c.sim.activity, 1)
 	_, err := h.ProcessPartialBeacon(c.peerCtx(ctx), proto.Clone(in).(*pb.PartialBeaconPacket))
+	c.sim.logPartial(c.from, to, h, in, err)
 	return err
 }
 
@@ -257,44 +265,28 @@ func netLogger() log.Logger {
 	return quietLogger()
 }
 
-func newNetSim(n, thr int, scheme string, k int, backend string, maxWait, quiet time.Duration) *netSim {
+func newNetSim(n, thr int, scheme string, k int, backend string, maxWait, quiet time.Duration, idx []int, spare int) *netSim {
 	sch := mustScheme(scheme)
-	s := &netSim{n: n, thr: thr, k: k, sch: sch, backend: backend, byAddr: map[string]int{}, streams: map[*simStream]bool{},
+	s := &netSim{n: n + spare, thr: thr, k: k, sch: sch, backend: backend, byAddr: map[string]int{}, streams: map[*simStream]bool{},
 		logger: netLogger(), maxWait: maxWait, quiet: quiet}
 	s.catchup = time.Second
 	s.period = time.Duration(k) * s.catchup
 	s.root = tmpDir()
-	// the group: one polynomial of degree thr-1, node i holds share i (as node_test.go's dkgShares / BatchIdentities)
-	pri := share.NewPriPoly(sch.KeyGroup, thr, sch.KeyGroup.Scalar().Pick(random.New()), random.New())
-	pub := pri.Commit(sch.KeyGroup.Point().Base())
-	_, commits := pub.Info()
-	shares := pri.Shares(n)
-	var knodes []*key.Node
-	var pairs []*key.Pair
-	for i := 0; i < n; i++ {
+	if idx == nil {
+		for i := 0; i < n; i++ {
+			idx = append(idx, i)
+		}
+	}
+	t0 := time.Unix(1700000000, 0)
+	s.genesis = t0.Add(s.catchup).Unix()
+	for i := 0; i < s.n; i++ {
 		addr := fmt.Sprintf("203.0.113.%d:4%03d", i+1, i)
 		kp, err := key.NewKeyPair(addr, sch)
 		if err != nil {
 			panic(err)
 		}
-		pairs = append(pairs, kp)
-		knodes = append(knodes, &key.Node{Index: uint32(i), Identity: kp.Public})
-		s.shares = append(s.shares, &key.Share{DistKeyShare: dkg.DistKeyShare{Share: shares[i], Commits: commits}, Scheme: sch})
 		s.byAddr[addr] = i
-	}
-	t0 := time.Unix(1700000000, 0)
-	s.genesis = t0.Add(s.catchup).Unix()
-	s.group = key.LoadGroup(knodes, s.genesis, &key.DistPublic{Coefficients: commits}, s.period, 0, sch, "default")
-	s.group.Threshold = thr
-	s.group.CatchupPeriod = s.catchup
-	s.group.GenesisSeed = []byte("verif-net-seed-0123456789abcdef0")
-	s.link = make([][]int, n)
-	s.grp = make([]int, n)
-	for i := range s.link {
-		s.link[i] = make([]int, n)
-	}
-	for i := 0; i < n; i++ {
-		nd := &simNode{idx: i, addr: pairs[i].Public.Addr, clk: clock.NewFakeClockAt(t0)}
+		nd := &simNode{idx: i, addr: addr, clk: clock.NewFakeClockAt(t0), pair: kp, cfg: -1}
 		if backend == "bolt" {
 			nd.dir = filepath.Join(s.root, fmt.Sprintf("multibeacon-%d", i), "default", "db")
 			if err := os.MkdirAll(nd.dir, 0o755); err != nil {
@@ -303,8 +295,23 @@ func newNetSim(n, thr int, scheme string, k int, backend string, maxWait, quiet 
 		}
 		s.nodes = append(s.nodes, nd)
 	}
+	// the group: one polynomial of degree thr-1, member i holds the share of index idx[i] (as node_test.go's
+	// dkgShares / BatchIdentities, which use 0..n-1)
+	secret := sch.KeyGroup.Scalar().Pick(random.New())
+	members := map[int]int{}
+	for i := 0; i < n; i++ {
+		members[i] = idx[i]
+	}
+	ep := s.newEpoch(secret, thr, members, 0, nil)
+	s.group = ep.group
+	s.link = make([][]int, s.n)
+	s.grp = make([]int, s.n)
+	for i := range s.link {
+		s.link[i] = make([]int, s.n)
+	}
 	s.warmUp()
 	for i := 0; i < n; i++ {
+		s.nodes[i].cfg = 0
 		s.startHandler(i, false)
 	}
 	return s
@@ -316,8 +323,9 @@ func (s *netSim) warmUp() {
 	msg := []byte("verif warm-up")
 	pubPoly := s.group.PublicKey.PubPoly(s.sch)
 	var sigs [][]byte
-	for i := 0; i < s.n; i++ {
-		sg, err := s.sch.ThresholdScheme.Sign(s.shares[i].PrivateShare(), msg)
+	e0 := s.epochs[0]
+	for i := 0; i < len(e0.members); i++ {
+		sg, err := s.sch.ThresholdScheme.Sign(e0.shares[i].PrivateShare(), msg)
 		if err != nil {
 			panic(err)
 		}
@@ -326,7 +334,7 @@ func (s *netSim) warmUp() {
 		}
 		sigs = append(sigs, sg)
 	}
-	full, err := s.sch.ThresholdScheme.Recover(pubPoly, msg, sigs[:s.thr], s.thr, s.n)
+	full, err := s.sch.ThresholdScheme.Recover(pubPoly, msg, sigs[:s.thr], s.thr, len(e0.members))
 	if err != nil {
 		panic(err)
 	}
@@ -361,17 +369,27 @@ func (s *netSim) openStore(nd *simNode) chain.Store {
 // catchup=true: Catchup (the restart path).
 func (s *netSim) startHandler(i int, catchup bool) {
 	nd := s.nodes[i]
-	st := s.openStore(nd)
+	nd.fs = &failStore{Store: s.openStore(nd)}
 	if nd.started > 0 {
 		nd.clk = clock.NewFakeClockAt(nd.clk.Now()) // the old handler's sleepers stay with the old clock
 	}
-	conf := &beacon.Config{Public: s.group.Nodes[i], Share: s.shares[i], Group: s.group, Clock: nd.clk}
-	h, err := beacon.NewHandler(s.storeCtx(), &memClient{sim: s, from: i}, st, conf, s.logger.Named(fmt.Sprintf("n%d", i)), common.GetAppVersion())
+	ep := s.epochs[nd.cfg]
+	conf := &beacon.Config{Public: ep.group.Find(nd.pair.Public), Share: ep.shares[i], Group: ep.group, Clock: nd.clk}
+	h, err := beacon.NewHandler(s.storeCtx(), &memClient{sim: s, from: i}, nd.fs, conf, s.logger.Named(fmt.Sprintf("n%d", i)), common.GetAppVersion())
 	if err != nil {
 		panic(err)
 	}
 	want := 1
-	if catchup {
+	if catchup && nd.joinTr {
+		// a joiner as Handler.Transition documents it: follow the previous group's chain, run from the transition time
+		nd.joinTr = false
+		s.mu.Lock()
+		nd.h, nd.up = h, true
+		s.mu.Unlock()
+		if err := h.Transition(context.Background(), s.epochs[nd.cfg-1].group); err != nil {
+			panic(err)
+		}
+	} else if catchup {
 		s.mu.Lock()
 		nd.h, nd.up = h, true
 		s.mu.Unlock()
@@ -406,25 +424,40 @@ func (s *netSim) stopNode(i int) {
 	if !wasUp {
 		return
 	}
-	nd.head = s.readHead(h)
+	if r, ok := s.readHeadOK(h); ok && r >= nd.head {
+		nd.head = r
+	}
 	s.cancelStreams(func(st *simStream) bool { return st.from == i || st.to == i })
 	h.Stop(context.Background())
 	time.Sleep(5 * time.Millisecond)
 }
 
 func (s *netSim) readHead(h *beacon.Handler) uint64 {
+	r, _ := s.readHeadOK(h)
+	return r
+}
+
+func (s *netSim) readHeadOK(h *beacon.Handler) (r uint64, ok bool) {
+	defer func() {
+		if recover() != nil { // a store closed by StopAt under the read
+			r, ok = 0, false
+		}
+	}()
 	b, err := h.Store().Last(context.Background())
 	if err != nil || b == nil {
-		return 0
+		return 0, false
 	}
-	return b.Round
+	return b.Round, true
 }
 
 func (s *netSim) heads() []uint64 {
 	out := make([]uint64, s.n)
 	for i, nd := range s.nodes {
 		if h := s.handlerOf(i); h != nil {
-			nd.head = s.readHead(h)
+			// a leaver stops itself (StopAt): the store is closed then, the last head read stays
+			if r, ok := s.readHeadOK(h); ok && r >= nd.head {
+				nd.head = r
+			}
 		}
 		out[i] = nd.head
 	}
@@ -519,8 +552,8 @@ func (s *netSim) snapshot(t0 time.Time, to bool) string {
 	if to {
 		tf = 1
 	}
-	return fmt.Sprintf("r=%d h=%s up=%s g=%s lk=%s ms=%d to=%d", s.curRound(), strings.Join(h, ","), strings.Join(up, ","),
-		strings.Join(g, ","), l, time.Since(t0).Milliseconds(), tf)
+	return fmt.Sprintf("r=%d h=%s up=%s g=%s lk=%s ms=%d to=%d%s", s.curRound(), strings.Join(h, ","), strings.Join(up, ","),
+		strings.Join(g, ","), l, time.Since(t0).Milliseconds(), tf, s.epochField())
 }
 
 func parseExpect(f []string, n int) []uint64 {
@@ -552,6 +585,9 @@ func (s *netSim) dump() string {
 		closeAfter := false
 		if h := s.handlerOf(i); h != nil {
 			st = h.Store()
+		} else if nd.started == 0 {
+			parts = append(parts, fmt.Sprintf("n%d:last=0:cnt=0:gapfree=true:valid=true:linked=true:sigs=", i))
+			continue
 		} else if s.backend == "bolt" {
 			st = s.openStore(nd)
 			closeAfter = true
@@ -599,9 +635,15 @@ func (s *netSim) dump() string {
 		if len(rounds) > 0 {
 			last = rounds[len(rounds)-1]
 		}
-		parts = append(parts, fmt.Sprintf("n%d:last=%d:cnt=%d:gapfree=%v:valid=%v:linked=%v:sigs=%s", i, last, len(rounds), gapfree, valid, linked, strings.Join(digs, ".")))
+		// the chain hash the node serves (its vault's chain info) and the one of the group it holds now
+		ch := "-"
+		if h := s.handlerOf(i); h != nil {
+			v := h.VerifVault()
+			ch = v.GetInfo().HashString()[:12] + "/" + dchain.NewChainInfo(v.GetGroup()).HashString()[:12]
+		}
+		parts = append(parts, fmt.Sprintf("n%d:last=%d:cnt=%d:gapfree=%v:valid=%v:linked=%v:ch=%s:sigs=%s", i, last, len(rounds), gapfree, valid, linked, ch, strings.Join(digs, ".")))
 	}
-	return "dump " + strings.Join(parts, " ")
+	return "dump " + strings.Join(parts, " ") + " ch0=" + dchain.NewChainInfo(s.group).HashString()[:12]
 }
 
 func (s *netSim) close() {
@@ -639,7 +681,26 @@ func netEngine(args []string, in *bufio.Scanner, out *bufio.Writer) {
 				n, _ := strconv.Atoi(f[1])
 				thr, _ := strconv.Atoi(f[2])
 				k, _ := strconv.Atoi(f[4])
-				s = newNetSim(n, thr, f[3], k, f[5], time.Duration(maxWait)*time.Millisecond, time.Duration(quiet)*time.Millisecond)
+				var idx []int
+				spare := 0
+				for _, x := range f[6:] {
+					if strings.HasPrefix(x, "idx=") {
+						for _, p := range strings.Split(x[4:], ",") {
+							v, err := strconv.Atoi(p)
+							if err != nil || v < 0 {
+								return "bad-op"
+							}
+							idx = append(idx, v)
+						}
+						if len(idx) != n {
+							return "bad-op"
+						}
+					}
+					if strings.HasPrefix(x, "spare=") {
+						spare, _ = strconv.Atoi(x[6:])
+					}
+				}
+				s = newNetSim(n, thr, f[3], k, f[5], time.Duration(maxWait)*time.Millisecond, time.Duration(quiet)*time.Millisecond, idx, spare)
 				return s.snapshot(t0, false)
 			}
 			if s == nil {
@@ -660,7 +721,7 @@ func netEngine(args []string, in *bufio.Scanner, out *bufio.Writer) {
 				return s.snapshot(t0, to)
 			case "restart":
 				i, _ := strconv.Atoi(f[1])
-				if s.nodes[i].up {
+				if s.nodes[i].up || s.nodes[i].cfg < 0 {
 					return "bad-op"
 				}
 				s.startHandler(i, true)
@@ -693,6 +754,8 @@ func netEngine(args []string, in *bufio.Scanner, out *bufio.Writer) {
 				return s.snapshot(t0, to)
 			case "dump":
 				return s.dump()
+			case "reshare", "announce", "failput", "inject", "plog":
+				return s.reshareOp(f, t0)
 			}
 			return "bad-op"
 		})
